@@ -79,8 +79,11 @@ def check(pid, tier):
                 if k:
                     known_lines.append(f"KNOWN-FINDING: property={pid} {k['what']}")
                     continue
-                path = core.write_replay(pid, dict(property=pid, tier=tier, seed=seed, stage=stage.name, **m))
-                violations.append((path, ""))
+                if len(violations) < 40:
+                    path = core.write_replay(pid, dict(property=pid, tier=tier, seed=seed, stage=stage.name, **m))
+                    violations.append((path, ""))
+                else:
+                    violations.append((violations[-1][0], ""))
         # ---------------- static failure handling
         if not st.ok:
             what = []
